@@ -116,12 +116,30 @@ theorem commute_past {I : Inner σ Op Out} {P : Policy σ Op} {R : σ → σ →
 theorem drain_eq_pending (I : Inner σ Op Out) (s : St σ Op) : drain I s = pending I s := by
   simp [drain, flushN_eq, pending]
 
+/-- **A rejected operation leaves the outbox unchanged**: no entry is added, the inner storage is
+only what flushing entries that were already queued makes of it (on the queue path: nothing at all
+happens), so the replayed table is exactly what it was. -/
+theorem rejected_unchanged (I : Inner σ Op Out) (P : Policy σ Op) (s : St σ Op) (op : Op)
+    (hr : P.rejects op = true) :
+    (accept I P s op).2.2.2 = false ∧ (accept I P s op).2.1 = I.rejected op ∧
+    pending I (accept I P s op).1 = pending I s ∧
+    (∃ m, (accept I P s op).1.queue = s.queue.drop m) ∧
+    (P.queues s.inner op = true → (accept I P s op).1 = s) := by
+  by_cases hq : P.queues s.inner op = true
+  · simp [accept, hq, hr]
+    exact ⟨0, by simp⟩
+  · have hq' : P.queues s.inner op = false := by simpa using hq
+    obtain ⟨hp, hm, _⟩ := wait_all I (P.scopes op) s
+    simp [accept, hq', hr]
+    exact ⟨hp, hm⟩
+
 /-- The simulation: whatever the worker's flush points, the log agrees with the sequential
-execution and the replayed table stays equivalent to the sequential state. -/
+execution of the accepted operations and the replayed table stays equivalent to that sequential
+state. -/
 theorem run_sound {I : Inner σ Op Out} {P : Policy σ Op} {R : σ → σ → Prop} (h : Sound I P R)
     (evs : List (Event Op)) (s : St σ Op) (t : σ) (hinv : R (pending I s) t) :
     Agree I t (run I P s evs).2 ∧
-    R (pending I (run I P s evs).1) (seqState I t ((run I P s evs).2.map (·.1))) := by
+    R (pending I (run I P s evs).1) (seqState I t (acceptedOps (run I P s evs).2)) := by
   induction evs generalizing s t with
   | nil => exact ⟨trivial, hinv⟩
   | cons ev evs ih =>
@@ -130,37 +148,49 @@ theorem run_sound {I : Inner σ Op Out} {P : Policy σ Op} {R : σ → σ → Pr
       simp only [run]
       exact ih _ t (by rw [pending_flushN]; exact hinv)
     | accept op =>
-      simp only [run, List.map_cons, seqState_cons, Agree]
-      by_cases hqm : P.queues s.inner op = true
-      · -- queued
-        have hacc : accept I P s op = ({ s with queue := s.queue ++ [op] }, I.ack op, false) := by
-          simp [accept, hqm]
-        rw [hacc]
-        have hinv' : R (pending I { s with queue := s.queue ++ [op] }) (I.step t op).1 := by
-          simp only [pending, seqState_append]
-          exact (h.congr op hinv).2
+      by_cases hrj : P.rejects op = true
+      · -- rejected: nothing happens to the replayed table, the sequential state does not move
+        obtain ⟨hacc, hout, hp, _, _⟩ := rejected_unchanged I P s op hrj
+        have hinv' : R (pending I (accept I P s op).1) t := by rw [hp]; exact hinv
         obtain ⟨ha, hr⟩ := ih _ _ hinv'
-        exact ⟨⟨by simp, ha⟩, hr⟩
-      · -- written through
-        have hqf : P.queues s.inner op = false := by simpa using hqm
-        obtain ⟨hp, _, hno⟩ := wait_all I (P.scopes op) s
-        have hacc : accept I P s op =
-            ({ ((P.scopes op).foldl (waitScope I) s) with
-                 inner := (I.step ((P.scopes op).foldl (waitScope I) s).inner op).1 },
-             (I.step ((P.scopes op).foldl (waitScope I) s).inner op).2, true) := by
-          simp [accept, hqf]
-        rw [hacc]
-        generalize hs1 : (P.scopes op).foldl (waitScope I) s = s1 at hp hno ⊢
-        have hind : ∀ e ∈ s1.queue, Indep I P op e := fun e he sc hsc => hno e he sc hsc
-        obtain ⟨co, cr⟩ := commute_past h op ⟨s.inner, hqf⟩ s1.queue hind s1.inner
-        have hinv1 : R (pending I s1) t := by rw [hp]; exact hinv
-        -- result = result after the whole table = sequential result
-        have hout : (I.step s1.inner op).2 = (I.step t op).2 := by
-          rw [← co]; exact (h.congr op hinv1).1
-        have hinv' : R (pending I { s1 with inner := (I.step s1.inner op).1 }) (I.step t op).1 := by
-          simp only [pending]
-          exact h.trans (h.symm cr) (h.congr op hinv1).2
-        obtain ⟨ha, hr⟩ := ih _ _ hinv'
-        exact ⟨⟨fun _ => hout, ha⟩, hr⟩
+        simp only [run, Agree, acceptedOps, List.filter_cons, hacc]
+        refine ⟨?_, ?_⟩
+        · simpa using ⟨hout, ha⟩
+        · simpa [acceptedOps] using hr
+      · have hrf : P.rejects op = false := by simpa using hrj
+        by_cases hqm : P.queues s.inner op = true
+        · -- queued
+          have hacc : accept I P s op = ({ s with queue := s.queue ++ [op] }, I.ack op, false, true) := by
+            simp [accept, hqm, hrf]
+          have hinv' : R (pending I { s with queue := s.queue ++ [op] }) (I.step t op).1 := by
+            simp only [pending, seqState_append]
+            exact (h.congr op hinv).2
+          obtain ⟨ha, hr⟩ := ih _ _ hinv'
+          simp only [run, hacc, Agree, acceptedOps, List.filter_cons]
+          refine ⟨?_, ?_⟩
+          · simpa using ha
+          · simpa [acceptedOps, seqState_cons] using hr
+        · -- written through
+          have hqf : P.queues s.inner op = false := by simpa using hqm
+          obtain ⟨hp, _, hno⟩ := wait_all I (P.scopes op) s
+          have hacc : accept I P s op =
+              ({ ((P.scopes op).foldl (waitScope I) s) with
+                   inner := (I.step ((P.scopes op).foldl (waitScope I) s).inner op).1 },
+               (I.step ((P.scopes op).foldl (waitScope I) s).inner op).2, true, true) := by
+            simp [accept, hqf, hrf]
+          generalize hs1 : (P.scopes op).foldl (waitScope I) s = s1 at hp hno hacc
+          have hind : ∀ e ∈ s1.queue, Indep I P op e := fun e he sc hsc => hno e he sc hsc
+          obtain ⟨co, cr⟩ := commute_past h op ⟨s.inner, hqf⟩ s1.queue hind s1.inner
+          have hinv1 : R (pending I s1) t := by rw [hp]; exact hinv
+          have hout : (I.step s1.inner op).2 = (I.step t op).2 := by
+            rw [← co]; exact (h.congr op hinv1).1
+          have hinv' : R (pending I { s1 with inner := (I.step s1.inner op).1 }) (I.step t op).1 := by
+            simp only [pending]
+            exact h.trans (h.symm cr) (h.congr op hinv1).2
+          obtain ⟨ha, hr⟩ := ih _ _ hinv'
+          simp only [run, hacc, Agree, acceptedOps, List.filter_cons]
+          refine ⟨?_, ?_⟩
+          · simpa using ⟨hout, ha⟩
+          · simpa [acceptedOps, seqState_cons] using hr
 
 end Pithos.OutboxStorage
